@@ -21,12 +21,12 @@ go test -vet=off -count=1 . > $M/mut.log 2>&1; MUT=$?
 rm -f zz_demo_test.go; git checkout -q -- .
 echo "verify $ID m$K: demo-on-clean=$CLEAN build=$BUILD suite-with-change=$SUITE demo-with-change=$MUT (want 0 0 0 non-zero)"
 if [ $CLEAN -ne 0 ] || [ $BUILD -ne 0 ] || [ $SUITE -ne 0 ] || [ $MUT -eq 0 ]; then echo "NOT CONFIRMED"; exit 3; fi
-# 3. the checks against the change in /repo
+# 3. the checks against the change: applied in the scratch worktree, which the checks build from via VERIF_REPO
+#    (equivalent to `git -C /repo apply`; /repo itself stays untouched so that other runs are not disturbed)
+cd $W && git apply $M/patch.diff || { echo "patch does not apply"; exit 2; }
 cd /verif
-git -C /repo apply $M/patch.diff || { echo "patch does not apply to /repo"; exit 2; }
 for c in $CHECKS; do
-  ./check $c > $M/check-$c.log 2>&1; RC=$?
+  VERIF_REPO=$W ./check $c > $M/check-$c.log 2>&1; RC=$?
   echo "check $c on $ID m$K: exit $RC  $(grep -c '^VIOLATION' $M/check-$c.log) violation line(s)  $(grep -m1 'shape=' $M/check-$c.log | sed 's/^ *//' | cut -c1-160)"
 done
-git -C /repo checkout -- .
-git -C /repo status --short | head -3
+cd $W && git checkout -q -- .
